@@ -45,6 +45,10 @@ func (f *Filter) Filter(subject any) {
 		v.ResultsFilteredByACLs = f.filterCheckServiceNodes(&v.Nodes)
 
 	case *structs.IndexedServiceTopology:
+		// The reply of a blocking query is filtered again every time the query
+		// wakes up: start from a clean flag like the single-list cases do.
+		v.FilteredByACLs = false
+		v.ResultsFilteredByACLs = false
 		filtered := f.filterServiceTopology(v.ServiceTopology)
 		if filtered {
 			v.FilteredByACLs = true
@@ -67,6 +71,7 @@ func (f *Filter) Filter(subject any) {
 		f.filterIntentionMatch(v)
 
 	case *structs.IndexedNodeDump:
+		v.ResultsFilteredByACLs = false
 		if f.filterNodeDump(&v.Dump) {
 			v.ResultsFilteredByACLs = true
 		}
@@ -134,6 +139,7 @@ func (f *Filter) Filter(subject any) {
 		v.ResultsFilteredByACLs = f.filterServiceList(&v.Services)
 
 	case *structs.IndexedExportedServiceList:
+		v.ResultsFilteredByACLs = false
 		for peer, peerServices := range v.Services {
 			if f.filterServiceList(&peerServices) {
 				v.ResultsFilteredByACLs = true
@@ -149,6 +155,7 @@ func (f *Filter) Filter(subject any) {
 		v.ResultsFilteredByACLs = f.filterGatewayServices(&v.Services)
 
 	case *structs.IndexedNodesWithGateways:
+		v.ResultsFilteredByACLs = false
 		if f.filterCheckServiceNodes(&v.Nodes) {
 			v.ResultsFilteredByACLs = true
 		}
